@@ -8,6 +8,85 @@ import Ptk.Model.C12Tree
 import Ptk.Props.C12
 namespace Ptk.C12
 
+
+/-- the explicit dimension can be constructed (`Dimension(...)` does not raise) -/
+def Spec.OK (s : Spec) : Prop := ¬ s.mx.getD Gen.C12.defaultMax < s.mn.getD Gen.C12.defaultMin
+
+/-- side condition on the regenerated constant: an unspecified minimum is 0 -/
+theorem gen_defaultMin : Gen.C12.defaultMin = 0 := by decide
+
+theorem mkDim_fields {mn mx w pr : Option Nat} {d : Dim} (h : mkDim mn mx w pr = some d) :
+    d.min = mn.getD Gen.C12.defaultMin ∧ d.max = mx.getD Gen.C12.defaultMax ∧
+    d.weight = w.getD Gen.C12.defaultWeight := by
+  unfold mkDim at h
+  simp only at h
+  split_ifs at h <;> simp only [Option.some.injEq] at h <;> subst h <;> exact ⟨rfl, rfl, rfl⟩
+
+/-- **`_merge_dimensions` never raises** for a constructible explicit dimension, whatever the
+    control prefers and whether or not `dont_extend` is set, and reports a valid dimension
+    (min ≤ preferred ≤ max) that keeps the explicit minimum and weight. -/
+theorem mergeDims_some {s : Spec} (hs : s.OK) (content : Option Nat) (de : Bool) :
+    ∃ d, mergeDims s content de = some d ∧ d.Valid ∧
+      d.min = s.mn.getD Gen.C12.defaultMin ∧ d.weight = s.w.getD Gen.C12.defaultWeight := by
+  unfold mergeDims
+  rcases h0 : mkDim s.mn s.mx s.w s.pr with _ | d0
+  · exact absurd ((mkDim_none_iff _ _ _ _).mp h0) hs
+  simp only
+  obtain ⟨f1, f2, f3⟩ := mkDim_fields h0
+  have hv0 := mkDim_valid h0
+  unfold Dim.Valid at hv0
+  -- the minimum handed to the second `Dimension(...)` is the first one's minimum
+  have hmn : (s.mn.map fun _ => d0.min).getD Gen.C12.defaultMin = d0.min := by
+    cases hm : s.mn <;> simp [hm, f1]
+  generalize hp : (Option.map (fun v => clampSpec v d0 s.mn s.mx)
+      (if s.pr.isSome = true then some d0.pref else content)) = p
+  -- a preferred size, when there is one, is at least the minimum
+  have hpge : ∀ v, p = some v → d0.min ≤ v := by
+    intro v hv
+    rw [← hp] at hv
+    rcases Option.map_eq_some_iff.mp hv with ⟨v0, _, rfl⟩
+    unfold clampSpec
+    cases hm : s.mn with
+    | none =>
+      rw [f1, hm]; simp [gen_defaultMin]
+    | some m => simp only [Option.isSome_some, if_true, Nat.max_def]; split_ifs <;> omega
+  generalize hmx : (if (de && p.isSome) = true then p.map (Nat.min d0.max)
+      else s.mx.map fun _ => d0.max) = mx
+  have hmxge : d0.min ≤ mx.getD Gen.C12.defaultMax := by
+    rw [← hmx]
+    split_ifs with hc
+    · cases hpv : p with
+      | none => rw [hpv] at hc; simp at hc
+      | some v =>
+        have := hpge v hpv
+        simp only [Option.map_some, Option.getD_some, Nat.min_def]; split_ifs <;> omega
+    · cases hx : s.mx with
+      | none => rw [hx] at f2; simp only [Option.getD_none] at f2; simp; omega
+      | some m => simp; omega
+  rcases h1 : mkDim (s.mn.map fun _ => d0.min) mx (some d0.weight) p with _ | d
+  · have := (mkDim_none_iff _ _ _ _).mp h1
+    rw [hmn] at this; omega
+  · obtain ⟨g1, _, g3⟩ := mkDim_fields h1
+    exact ⟨d, rfl, mkDim_valid h1, by rw [g1, hmn, f1], by rw [g3]; simpa using f3⟩
+
+example : mergeDims ⟨some 2, none, none, none⟩ (some 7) true = some ⟨2, 7, 7, 1⟩ := by decide
+example : mergeDims ⟨some 2, some 5, some 0, none⟩ (some 7) true = some ⟨2, 5, 5, 0⟩ := by decide
+example : mergeDims ⟨some 4, none, none, none⟩ (some 1) true = some ⟨4, 4, 4, 1⟩ := by decide
+example : mergeDims ⟨none, none, none, some 3⟩ (some 9) false
+    = some ⟨0, 3, Gen.C12.defaultMax, 1⟩ := by decide
+
+
+/-- `Window(width=Dimension(...))` with a `DummyControl` is the special case without content
+    preference and without `dont_extend` -/
+theorem windowDim_eq_mergeDims (mn mx w pr : Option Nat) :
+    windowDim mn mx w pr = mergeDims ⟨mn, mx, w, pr⟩ none false := by
+  unfold windowDim mergeDims
+  rcases mkDim mn mx w pr with _ | d
+  · rfl
+  · simp only [Bool.false_and, Bool.false_eq_true, if_false]
+    congr 1
+    cases pr <;> rfl
+
 /-- all dimensions in the tree are valid (`Dimension.__init__` guarantees it) -/
 inductive Node.Valid : Node → Prop
   | win {id : Nat} {w h : Dim} : w.Valid → h.Valid → Node.Valid (.win id w h)
@@ -15,6 +94,12 @@ inductive Node.Valid : Node → Prop
       pad.Valid → (∀ c ∈ cs, Node.Valid c) → Node.Valid (.hsplit al pad cs)
   | vsplit {al : Align} {pad : Dim} {cs : List Node} :
       pad.Valid → (∀ c ∈ cs, Node.Valid c) → Node.Valid (.vsplit al pad cs)
+  | winx {id : Nat} {sw sh : Spec} {cw ch : Option Nat} {dew deh : Bool} :
+      sw.OK → sh.OK → Node.Valid (.winx id sw sh cw ch dew deh)
+  | cond {on : Bool} {c : Node} : Node.Valid c → Node.Valid (.cond on c)
+  | sized {w h : Option Dim} {c : Node} :
+      (∀ d, w = some d → d.Valid) → (∀ d, h = some d → d.Valid) → Node.Valid c →
+      Node.Valid (.sized w h c)
 
 /-- `q` lies inside `r` -/
 def Rect.inside (q r : Rect) : Prop :=
@@ -178,10 +263,30 @@ theorem prefW_valid (fuel : Nat) : ∀ (d : Nat) (n : Node) (avail : Nat) (dim :
     | win hw _ => simp only [prefW, Option.some.injEq] at h; subst h; exact hw
     | hsplit _ _ => simp only [prefW, Option.some.injEq] at h; subst h; exact dNone_valid
     | vsplit _ _ => simp only [prefW, Option.some.injEq] at h; subst h; exact dNone_valid
+    | @winx id sw sh cw ch dew deh hsw _ =>
+      simp only [prefW] at h
+      obtain ⟨d', h1, h2, _⟩ := mergeDims_some hsw cw dew
+      rw [h1] at h; simp only [Option.some.injEq] at h; subst h; exact h2
+    | cond _ => simp only [prefW, Option.some.injEq] at h; subst h; exact dNone_valid
+    | sized _ _ _ => simp only [prefW, Option.some.injEq] at h; subst h; exact dNone_valid
   | succ d ih =>
     intro n avail dim hv h
     cases hv with
     | win hw _ => simp only [prefW, Option.some.injEq] at h; subst h; exact hw
+    | @winx id sw sh cw ch dew deh hsw _ =>
+      simp only [prefW] at h
+      obtain ⟨d', h1, h2, _⟩ := mergeDims_some hsw cw dew
+      rw [h1] at h; simp only [Option.some.injEq] at h; subst h; exact h2
+    | @cond on c hc =>
+      simp only [prefW] at h
+      split_ifs at h
+      · exact ih c avail dim hc h
+      · exact mkDim_valid h
+    | @sized w hh c hw _ hc =>
+      simp only [prefW] at h
+      cases w with
+      | some w' => simp only [Option.some.injEq] at h; subst h; exact hw _ rfl
+      | none => exact ih c avail dim hc h
     | @hsplit al pad cs hp hc =>
       simp only [prefW] at h
       split_ifs at h with he
@@ -211,10 +316,30 @@ theorem prefH_valid (fuel : Nat) : ∀ (d : Nat) (n : Node) (width availH : Nat)
     | win _ hh => simp only [prefH, Option.some.injEq] at h; subst h; exact hh
     | hsplit _ _ => simp only [prefH, Option.some.injEq] at h; subst h; exact dNone_valid
     | vsplit _ _ => simp only [prefH, Option.some.injEq] at h; subst h; exact dNone_valid
+    | @winx id sw sh cw ch dew deh _ hsh =>
+      simp only [prefH] at h
+      obtain ⟨d', h1, h2, _⟩ := mergeDims_some hsh ch deh
+      rw [h1] at h; simp only [Option.some.injEq] at h; subst h; exact h2
+    | cond _ => simp only [prefH, Option.some.injEq] at h; subst h; exact dNone_valid
+    | sized _ _ _ => simp only [prefH, Option.some.injEq] at h; subst h; exact dNone_valid
   | succ d ih =>
     intro n width availH dim hv h
     cases hv with
     | win _ hh => simp only [prefH, Option.some.injEq] at h; subst h; exact hh
+    | @winx id sw sh cw ch dew deh _ hsh =>
+      simp only [prefH] at h
+      obtain ⟨d', h1, h2, _⟩ := mergeDims_some hsh ch deh
+      rw [h1] at h; simp only [Option.some.injEq] at h; subst h; exact h2
+    | @cond on c hc =>
+      simp only [prefH] at h
+      split_ifs at h
+      · exact ih c width availH dim hc h
+      · exact mkDim_valid h
+    | @sized w hh c _ hhv hc =>
+      simp only [prefH] at h
+      cases hh with
+      | some h' => simp only [Option.some.injEq] at h; subst h; exact hhv _ rfl
+      | none => exact ih c width availH dim hc h
     | @hsplit al pad cs hp hc =>
       simp only [prefH] at h
       rcases hm : mapM? (fun c : Tag × Node => prefH fuel d c.2 width availH) (allNodes true al pad cs)
@@ -313,6 +438,36 @@ theorem children_drawnOK {fuel d : Nat} {r : Rect} (mk : Nat × Nat → Rect)
       have o2 := ih q.2.1 q.2.2 (mk q.1) l2 (hvalid q.2 (List.of_mem_zip hpq.1.2).2) h2
       exact hpq.2 x.2 y.2 (o1.1 x hx) (o2.1 y hy)
 
+/-- a window with `dont_extend_width` / `dont_extend_height` is drawn on a region that starts
+    where the region it was given starts and is at most as wide and as high -/
+theorem winRect_inside {sw sh : Spec} {cw ch : Option Nat} {dew deh : Bool} {r q : Rect}
+    (h : winRect sw sh cw ch dew deh r = some q) : q.inside r ∧ q.x = r.x ∧ q.y = r.y := by
+  unfold winRect at h
+  rcases h1 : mergeDims sw cw dew with _ | dw
+  · rw [h1] at h; simp at h
+  rcases h2 : mergeDims sh ch deh with _ | dh
+  · rw [h1, h2] at h; simp at h
+  rw [h1, h2] at h
+  simp only [Option.some.injEq] at h
+  subst h
+  unfold Rect.inside
+  simp only [Nat.min_def]
+  refine ⟨⟨le_refl _, ?_, le_refl _, ?_⟩, trivial, trivial⟩ <;> split_ifs <;> omega
+
+theorem winx_drawnOK {fuel d : Nat} {t : Tag} {id : Nat} {sw sh : Spec} {cw ch : Option Nat}
+    {dew deh : Bool} {r : Rect} {out : List (Tag × Rect)}
+    (h : render fuel d t (.winx id sw sh cw ch dew deh) r = some out) : DrawnOK out r := by
+  have hx : ∃ q, winRect sw sh cw ch dew deh r = some q ∧
+      out = (if visible q then [(t, q)] else []) := by
+    cases d <;>
+    · simp only [render] at h
+      rcases hq : winRect sw sh cw ch dew deh r with _ | q
+      · rw [hq] at h; simp at h
+      · rw [hq] at h; simp only [Option.some.injEq] at h; exact ⟨q, rfl, h.symm⟩
+  obtain ⟨q, hq, rfl⟩ := hx
+  have := (winRect_inside hq).1
+  split_ifs <;> simp [DrawnOK, this]
+
 /-- **Nested layouts: inside and disjoint.**  For every tree with valid dimensions, every
     region `r`, every depth bound and fuel: the windows drawn by `write_to_screen` all lie inside
     `r`, and no two of them overlap. -/
@@ -329,6 +484,9 @@ theorem render_drawnOK (fuel : Nat) : ∀ (d : Nat) (t : Tag) (n : Node) (r : Re
       split_ifs <;> simp [DrawnOK, hself]
     | hsplit _ _ => simp only [render, Option.some.injEq] at h; subst h; simp [DrawnOK]
     | vsplit _ _ => simp only [render, Option.some.injEq] at h; subst h; simp [DrawnOK]
+    | winx _ _ => exact winx_drawnOK h
+    | cond _ => simp only [render, Option.some.injEq] at h; subst h; simp [DrawnOK]
+    | sized _ _ _ => simp only [render, Option.some.injEq] at h; subst h; simp [DrawnOK]
   | succ d ih =>
     intro t n r out hv h
     have hself : ∀ rr : Rect, rr.inside rr := fun rr => by unfold Rect.inside; omega
@@ -336,6 +494,15 @@ theorem render_drawnOK (fuel : Nat) : ∀ (d : Nat) (t : Tag) (n : Node) (r : Re
     | win _ _ =>
       simp only [render, Option.some.injEq] at h; subst h
       split_ifs <;> simp [DrawnOK, hself]
+    | winx _ _ => exact winx_drawnOK h
+    | @cond on c hc =>
+      simp only [render] at h
+      split_ifs at h
+      · exact ih _ c r out hc h
+      · simp only [Option.some.injEq] at h; subst h; simp [DrawnOK]
+    | @sized w hh c _ _ hc =>
+      simp only [render] at h
+      exact ih _ c r out hc h
     | @hsplit al pad cs hp hc =>
       simp only [render] at h
       have hvalid := allNodes_valid (horizontal := true) (al := al) hp hc
